@@ -1,9 +1,89 @@
 import BronVerif.Drive.Common
-/-! Driver handlers for C01. -/
+import BronVerif.Drive.C03
+import BronVerif.Model.SignAlg
+/-! Driver handlers for C01 (threshold signing): independent verification of the emitted signature in
+model curve arithmetic, with the message digest / challenge scalar as an explicit argument. -/
 namespace BronVerif.Drive.C01
-open BronVerif BronVerif.Drive
+open BronVerif BronVerif.Drive BronVerif.LinAlg BronVerif.SignAlg
 
-def handle (op : String) (_args : List String) (_rhs : String) : Verdict :=
-  .unsupported ("C01 op " ++ op)
+def pt (C : Curves.Params) (s : String) : Option (GPt C) := (Curves.parse? C s).map fun p => ⟨p⟩
+
+def yIsOdd (C : Curves.Params) (P : GPt C) : Bool :=
+  match P.pt.coords with
+  | some (_, [y]) => y % 2 == 1
+  | _ => false
+
+def gneg (C : Curves.Params) (P : GPt C) : GPt C := ⟨Curves.neg C P.pt⟩
+
+def handleEcdsa (C : Curves.Params) (pkS mS rS sS noncesS pksS : String) : Verdict :=
+  withPrime C.n (.unsupported "n=0") fun q =>
+  match pt C pkS, hexToNat? mS, hexToNat? rS, hexToNat? sS, C03.parsePts C noncesS, C03.parsePts C pksS with
+  | some pk, some m, some r, some s, some nonces, some pkShares =>
+    let g := GPt.gen C
+    let mF : Fp q := Fp.ofNat q m
+    let rF : Fp q := Fp.ofNat q r
+    let sF : Fp q := Fp.ofNat q s
+    if r ≥ q ∨ s ≥ q then .bad "ecdsa-scalar-range" "r or s is not a canonical scalar" else
+    if !(ecdsaVerify g pk (GPt.xScalar C (q := q)) mF rF sF) then
+      .bad "ecdsa-invalid" "independent verification of (r,s) against pk and the digest scalar fails" else
+    if !nonces.isEmpty && GPt.xScalar C (q := q) (gsum nonces) != some rF then
+      .bad "ecdsa-r-not-x-of-sum-R" "r differs from x(Σ Rᵢ) mod n of the broadcast nonce points" else
+    if !pkShares.isEmpty && decide (gsum pkShares ≠ pk) then
+      .bad "ecdsa-pkshares-sum" "broadcast additive public key shares do not sum to pk" else .ok
+  | _, _, _, _, _, _ => .unsupported "parse"
+
+def handleSchnorr (C : Curves.Params) (variant pkS eS RS sS noncesS : String) : Verdict :=
+  withPrime C.n (.unsupported "n=0") fun q =>
+  match pt C pkS, hexToNat? eS, pt C RS, hexToNat? sS, C03.parsePts C noncesS with
+  | some pk, some e, some R, some s, some nonces =>
+    let g := GPt.gen C
+    let eF : Fp q := Fp.ofNat q e
+    let sF : Fp q := Fp.ofNat q s
+    if s ≥ q then .bad "schnorr-scalar-range" "s is not a canonical scalar" else
+    let sumR := gsum nonces
+    match variant with
+    | "vanilla" =>
+      if !(schnorrVerify g pk R eF sF false) then .bad "schnorr-invalid" "s•G ≠ R + e•pk" else
+      if !nonces.isEmpty && decide (sumR ≠ R) then .bad "schnorr-R-not-sum" "R differs from Σ Rᵢ" else .ok
+    | "bip340" =>
+      let pk' := if yIsOdd C pk then gneg C pk else pk
+      if yIsOdd C R then .bad "bip340-R-odd" "R has odd y" else
+      if !(schnorrVerify g pk' R eF sF false) then .bad "schnorr-invalid" "s•G ≠ R + e•lift_x(pk)" else
+      if !nonces.isEmpty && decide (sumR ≠ R) && decide (gneg C sumR ≠ R) then
+        .bad "schnorr-R-not-sum" "R differs from ±Σ Rᵢ" else .ok
+    | v => .unsupported ("variant " ++ v)
+  | _, _, _, _, _ => .unsupported "parse"
+
+def handleAddConv (C : Curves.Params) (rs cs labelsS ms vS pkS qS : String) : Verdict :=
+  withPrime C.n (.unsupported "n=0") fun q =>
+  match rs.toNat?, cs.toNat?, parseDecList? labelsS, C03.parsePts C vS, pt C pkS, parseDecList? qS with
+  | some rows, some cols, some labels, some V, some pk, some quorum =>
+    match C03.parseMat (p := q) rows cols ms with
+    | none => .unsupported "matrix"
+    | some M =>
+      if labels.length ≠ rows ∨ V.length ≠ cols then .unsupported "shape" else
+      if decide (V.head? ≠ some pk) then .bad "pk-not-V0" "pk differs from V[0]" else
+      match liftedReconstruct M cols labels (fun k => gdot (M.getD k []) V) quorum with
+      | none => .bad "quorum-not-spanning" s!"e0 is not in the span of the rows of the signing quorum {quorum}"
+      | some P => if decide (P = pk) then .ok
+                  else .bad "additive-conversion" "Σ coeff • pkShare over the quorum differs from pk"
+  | _, _, _, _, _, _ => .unsupported "args"
+
+def handle (op : String) (args : List String) (rhs : String) : Verdict :=
+  if rhs != "ok" then .unsupported ("rhs " ++ rhs) else
+  match op, args with
+  | "ecdsa", [_proto, curve, pk, _msg, _digest, m, r, s, nonces, pks] =>
+    match Curves.byName? curve with
+    | none => .unsupported ("curve " ++ curve)
+    | some C => handleEcdsa C pk m r s nonces pks
+  | "schnorr", [variant, curve, pk, _msg, e, R, s, nonces] =>
+    match Curves.byName? curve with
+    | none => .unsupported ("curve " ++ curve)
+    | some C => handleSchnorr C variant pk e R s nonces
+  | "addconv", [curve, rs, cs, labels, ms, v, pk, q] =>
+    match Curves.byName? curve with
+    | none => .unsupported ("curve " ++ curve)
+    | some C => handleAddConv C rs cs labels ms v pk q
+  | _, _ => .unsupported ("C01 op " ++ op)
 
 end BronVerif.Drive.C01
